@@ -25,6 +25,18 @@ import (
 
 func TestMain(m *testing.M) { stat.Main(m) }
 
+// hoistedRFC6979 is one RFC6979SHA256() value used by many signing calls: the selector is a value like any other,
+// and callers take it once, outside their loops.
+var hoistedRFC6979 = secec.RFC6979SHA256()
+
+// rfcReader returns the RFC 6979 selector: a fresh one, or the one every earlier call of this process used.
+func rfcReader(t *rapid.T) io.Reader {
+	if rapid.Bool().Draw(t, "rfc6979-selector-reused") {
+		return hoistedRFC6979
+	}
+	return secec.RFC6979SHA256()
+}
+
 type sigOut struct {
 	r, s *big.Int
 	v    byte
@@ -299,14 +311,14 @@ func propRFC6979(t *rapid.T) {
 	if neg {
 		wid ^= 1
 	}
-	r, s, v, err := lib.PrivKey(d).SignRaw(secec.RFC6979SHA256(), digest)
+	r, s, v, err := lib.PrivKey(d).SignRaw(rfcReader(t), digest)
 	if err != nil {
 		t.Fatalf("SignRaw(RFC6979) failed: %v", err)
 	}
 	if lib.ScInt(r).Cmp(wr) != 0 || lib.ScInt(s).Cmp(ws) != 0 || int(v) != wid {
 		t.Fatalf("RFC 6979 mismatch for d=%x digest=%x: got (%x,%x,%d) want (%x,%x,%d)", d, digest, lib.ScInt(r), lib.ScInt(s), v, wr, ws, wid)
 	}
-	sig, err := lib.PrivKey(d).Sign(secec.RFC6979SHA256(), digest, nil)
+	sig, err := lib.PrivKey(d).Sign(rfcReader(t), digest, nil)
 	if err != nil || !bytes.Equal(sig, ref.EncodeDERSig(wr, ws)) {
 		t.Fatalf("Sign(RFC6979) = %x, want %x (%v)", sig, ref.EncodeDERSig(wr, ws), err)
 	}
